@@ -64,6 +64,19 @@ fn run_total(cfg: &Cfg, ops: &[Op], sigs: Option<&mut BTreeSet<String>>) -> Resu
         sig = Some(cursor_signature(&d));
         phase = "clone";
         let c = s.dup();
+        phase = "clone_from (other parameters)";
+        {
+            // Clone::clone_from between instances with different parameters, both directions
+            let mut other_cfg = *cfg;
+            for p in other_cfg.p.iter_mut().take(cfg.kind.nperiods()) {
+                *p = if *p > 2 { *p - 1 } else { *p + 2 };
+            }
+            let mut o = make(&other_cfg);
+            let mut d = s.dup();
+            d.assign_from(o.as_ref());
+            o.assign_from(s.as_ref());
+            let _ = o.dbg();
+        }
         phase = "serialize";
         let b = s.ser();
         phase = "clone.next";
@@ -370,7 +383,7 @@ pub fn run(ctx: &Ctx) -> CheckResult {
         res.absorb(merge_jobs(outs));
     }
     res.extra.insert("cursor_states".into(), json!(cursor_rows));
-    res.rule = "case = (configuration, history mixing ordinary values with NaN, +-inf, +-f64::MAX, subnormals, -0.0, inconsistent bars and resets); every next()/reset() and, in the final state, Display, Debug, clone and bincode serialization must return normally under catch_unwind with overflow checks and debug assertions on; non-trivial = history longer than the period".into();
+    res.rule = "case = (configuration, history mixing ordinary values with NaN, +-inf, +-f64::MAX, subnormals, -0.0, inconsistent bars and resets); every next()/reset() and, in the final state, Display, Debug, clone, clone_from (between different parameters) and bincode serialization must return normally under catch_unwind with overflow checks and debug assertions on; non-trivial = history longer than the period".into();
     res.bounds = format!("(a) all sequences over {{1.0, 7 special values / 9 special bars, reset}} up to depth {depth}, all 22 indicators, periods 1..4 and multipliers {{2,0,-1,NaN,1e300,inf}}; (b) every period 1..64: default stream of 3n+3 inputs, every prefix length, every special value / reset at every position{}; (c) periods 100, 257, 1000, 4096 with strided positions; (d) one long run of ordinary inputs per indicator and period 1..64: 3e5 (1.2e6) calls for periods <= 8, 7e4 (3e5) above - past 2^16 wrap-arounds for small periods; periods 65536 and 100000 (thorough: 65535..2^20) run past their first wrap-around", if th { ", every pair of positions for n<=16" } else { "" });
     res.assumptions = vec![
         "built with overflow-checks = true and debug-assertions = true (profile of /verif/mc)".into(),
